@@ -1,1 +1,473 @@
-// harnesses for storage (none yet)
+// C07 — peer store (storage.rs), store level: one operation from a directly constructed store.
+//
+// The store's map is the linear-scan stand-in of rt.rs under cfg(kani) (hook in storage.rs; std
+// HashMap is not tractable, DESIGN.md F17). The expiry queue (`Vec<ItemExpiration>`), the lazy expiry
+// from the queue head (`take_while` + `drain`), renewal (`retain` + `push`), the capacity test and
+// `ItemExpiration`'s equality are the real code.
+//
+// Pre-state = representation invariant of the store: the expiry queue is ordered by insertion time
+// (symbolic, non-decreasing, ns resolution), every queue entry has exactly one contact in the list
+// of its info-hash and vice versa, pairs are distinct. Entries may already be older than 24 h (expiry
+// is lazy). One operation at a symbolic later time is decided against the statement: exactly the
+// pairs announced within the last 24 hours are returned, each once; re-announcing restarts the 24
+// hours without duplicating; expired pairs are gone.
+use super::*;
+use crate::verif::{clock, concrete_addr_v4, concrete_id};
+
+const DAY: Duration = Duration::from_secs(24 * 60 * 60);
+const MAX_GAP_SECS: u64 = 30 * 60 * 60;
+
+fn hash_of(sel: u8) -> InfoHash {
+    concrete_id(0x77, sel)
+}
+
+/// How instants are chosen: 0 = symbolic (F27: not tractable through the expiry pass), 1..3 = enumerated
+/// concretely: 1 = pairs announced 2 h apart, operation 1 h after the last (nothing expired);
+/// 2 = operation 25 h after the first announce (exactly the oldest pair expired when n > 1);
+/// 3 = operation 30 h after the last announce (everything expired).
+static mut TIME_MODE: u8 = 0;
+
+fn time_mode() -> u8 {
+    unsafe { TIME_MODE }
+}
+
+fn gap_between_announces() {
+    if time_mode() == 0 {
+        clock::wait_symbolic(MAX_GAP_SECS);
+    } else {
+        clock::wait(Duration::from_secs(2 * 3600));
+    }
+}
+
+fn gap_before_operation(n: usize) {
+    match time_mode() {
+        0 => {
+            clock::wait_symbolic(MAX_GAP_SECS);
+        }
+        1 => clock::wait(Duration::from_secs(3600)),
+        2 => clock::wait(Duration::from_secs(25 * 3600 - 2 * 3600 * (n as u64 - 1))),
+        _ => clock::wait(Duration::from_secs(30 * 3600)),
+    }
+}
+
+struct Pre {
+    store: AnnounceStorage,
+    t: [Duration; 3],
+    n: usize,
+}
+
+/// `n` pairs (hash_sel[i], address addr_sel[i]) announced at symbolic non-decreasing instants. A pair may
+/// have been re-announced before: then its contact-list item still carries the time of its first
+/// announce (renewal only replaces the queue entry), an arbitrary amount (<= 30 h) earlier.
+fn built_store(n: usize, hash_sel: [u8; 3], addr_sel: [u8; 3], stale: bool) -> Pre {
+    if time_mode() == 0 {
+        clock::start_symbolic();
+    } else {
+        clock::start_fixed();
+    }
+    let mut store = AnnounceStorage::new();
+    store.expires = Vec::with_capacity(4);
+    let mut t = [Duration::ZERO; 3];
+    let mut lists: [Vec<AnnounceItem>; 2] = [Vec::with_capacity(4), Vec::with_capacity(4)];
+    let mut i = 0;
+    while i < n {
+        if i > 0 {
+            gap_between_announces();
+        }
+        t[i] = clock::now();
+        let mut item = AnnounceItem::new(hash_of(hash_sel[i]), concrete_addr_v4(addr_sel[i]));
+        store.expires.push(item.expiration());
+        if stale && kani::any::<bool>() {
+            let earlier = if time_mode() == 0 { crate::verif::symbolic_duration(MAX_GAP_SECS) } else { Duration::from_secs(3 * 3600) };
+            item.expiration.inserted = item.expiration.inserted - earlier;
+        }
+        lists[hash_sel[i] as usize].push(item);
+        i += 1;
+    }
+    let [l0, l1] = lists;
+    if !l0.is_empty() {
+        store.storage.insert(hash_of(0), l0);
+    }
+    if !l1.is_empty() {
+        store.storage.insert(hash_of(1), l1);
+    }
+    Pre { store, t, n }
+}
+
+fn queue_count(store: &AnnounceStorage, addr: SocketAddr, h: InfoHash) -> usize {
+    let mut c = 0;
+    for e in store.expires.iter() {
+        if e.address() == addr && e.info_hash() == h {
+            c += 1;
+        }
+    }
+    c
+}
+
+fn list_count(store: &AnnounceStorage, addr: SocketAddr, h: InfoHash) -> usize {
+    let mut c = 0;
+    if let Some(items) = store.storage.get(&h) {
+        for it in items.iter() {
+            if it.address() == addr {
+                c += 1;
+            }
+        }
+    }
+    c
+}
+
+/// one `find_items` at a symbolic later time
+fn find_step(n: usize, hash_sel: [u8; 3], addr_sel: [u8; 3], stale: bool) {
+    let mut pre = built_store(n, hash_sel, addr_sel, stale);
+    gap_before_operation(n);
+    let now = clock::now();
+    let which: u8 = kani::any::<u8>() % 2;
+    let h = hash_of(which);
+    let mut got = [None; 4];
+    let mut cnt = 0;
+    for a in pre.store.find_items(&h) {
+        assert!(cnt < 4, "C07: more peers returned than were ever announced");
+        got[cnt] = Some(a);
+        cnt += 1;
+    }
+    let mut expect = 0;
+    let mut i = 0;
+    while i < n {
+        let live = now - pre.t[i] < DAY;
+        let mine = hash_sel[i] == which;
+        let a = concrete_addr_v4(addr_sel[i]);
+        let mut seen = 0;
+        let mut k = 0;
+        while k < 4 {
+            if got[k] == Some(a) {
+                seen += 1;
+            }
+            k += 1;
+        }
+        if live && mine {
+            assert!(seen == 1, "C07: a pair announced within the last 24 hours is not returned exactly once");
+            expect += 1;
+        } else if mine {
+            assert!(seen == 0, "C07: an expired peer is returned");
+        }
+        // the store itself: expired pairs are gone from queue and lists, live ones are kept once
+        let h_i = hash_of(hash_sel[i]);
+        assert!(queue_count(&pre.store, a, h_i) == if live { 1 } else { 0 }, "C07: expiry queue keeps an expired pair or loses a live one");
+        assert!(list_count(&pre.store, a, h_i) == if live { 1 } else { 0 }, "C07: contact list keeps an expired pair or loses a live one");
+        i += 1;
+    }
+    assert!(cnt == expect, "C07: the number of peers returned differs from the number of live pairs");
+    kani::cover!(time_mode() != 0 || (n > 0 && now - pre.t[0] >= DAY && now - pre.t[n - 1] < DAY), "oldest pair expired, newest live");
+    kani::cover!(time_mode() != 0 || (n > 0 && now - pre.t[n - 1] >= DAY), "everything expired");
+    kani::cover!(time_mode() != 0 || (n > 0 && now - pre.t[0] < DAY), "nothing expired");
+    kani::cover!(cnt == expect, "end of harness reached");
+    std::mem::forget(pre);
+}
+
+/// one `add_item` (renewal of pair x < n, or the new pair n) at a symbolic later time
+fn add_step(n: usize, hash_sel: [u8; 3], addr_sel: [u8; 3], x: usize, x_hash: u8, x_addr: u8, stale: bool) {
+    let mut pre = built_store(n, hash_sel, addr_sel, stale);
+    gap_before_operation(n);
+    let now = clock::now();
+    let h = hash_of(x_hash);
+    let a = concrete_addr_v4(x_addr);
+    let ok = pre.store.add_item(h, a);
+    assert!(ok, "C07: an announce below the capacity limit is refused");
+    // the announced pair: exactly once in queue and list, at the back of the queue, restarted now
+    assert!(queue_count(&pre.store, a, h) == 1, "C07: re-announcing duplicates (or loses) the pair in the expiry queue");
+    assert!(list_count(&pre.store, a, h) == 1, "C07: re-announcing duplicates (or loses) the pair in the contact list");
+    match pre.store.expires.last() {
+        Some(e) => {
+            assert!(e.address() == a && e.info_hash() == h, "C07: a (re-)announced pair is not the newest entry of the expiry queue");
+            assert!(!e.is_expired(crate::time::Instant::now()), "C07: a pair just announced counts as expired");
+            // its 24 hours start now: live until now + 24 h - 1 ns, expired from now + 24 h on
+            let almost = crate::time::Instant::now() + (DAY - Duration::from_nanos(1));
+            let full = crate::time::Instant::now() + DAY;
+            assert!(!e.is_expired(almost) && e.is_expired(full), "C07: re-announcing does not restart the pair's 24 hours");
+        }
+        None => assert!(false, "C07: expiry queue empty after an accepted announce"),
+    }
+    let mut live_others = 0;
+    let mut i = 0;
+    while i < n {
+        let same_pair = i == x && hash_sel[i] == x_hash && addr_sel[i] == x_addr;
+        if !same_pair {
+            let live = now - pre.t[i] < DAY;
+            let h_i = hash_of(hash_sel[i]);
+            let a_i = concrete_addr_v4(addr_sel[i]);
+            assert!(queue_count(&pre.store, a_i, h_i) == if live { 1 } else { 0 }, "C07: an announce altered another pair in the expiry queue");
+            assert!(list_count(&pre.store, a_i, h_i) == if live { 1 } else { 0 }, "C07: an announce altered another pair in the contact list");
+            if live {
+                live_others += 1;
+            }
+        }
+        i += 1;
+    }
+    assert!(pre.store.expires.len() == live_others + 1, "C07: expiry queue length differs from the number of live pairs");
+    // queue stays ordered by insertion time (the invariant the lazy expiry relies on)
+    let mut prev: Option<crate::time::Instant> = None;
+    for e in pre.store.expires.iter() {
+        if let Some(p) = prev {
+            assert!(p <= e.inserted, "C07: expiry queue no longer ordered by announce time");
+        }
+        prev = Some(e.inserted);
+    }
+    kani::cover!(time_mode() != 0 || (x < n && now - pre.t[x] < DAY), "renewal of a live pair");
+    kani::cover!(time_mode() != 0 || (n > 0 && now - pre.t[0] >= DAY), "oldest pair expired at the announce");
+    kani::cover!(ok, "end of harness reached");
+    std::mem::forget(pre);
+}
+
+/// pair 1 is (hash 0, address 1), (hash 1, address 1) or (hash 1, address 0 = the address of pair 0)
+fn second_pair() -> (u8, u8) {
+    match kani::any::<u8>() % 3 {
+        0 => (0, 1),
+        1 => (1, 1),
+        _ => (1, 0),
+    }
+}
+
+#[kani::proof]
+#[kani::unwind(21)]
+fn c07_find_step_n2() {
+    let (h1, a1) = second_pair();
+    find_step(2, [0, h1, 0], [0, a1, 0], true);
+}
+
+#[kani::proof]
+#[kani::unwind(21)]
+fn c07_renew_step_n2() {
+    // renew pair 0 (the oldest) or pair 1
+    let (h1, a1) = second_pair();
+    if kani::any::<bool>() {
+        add_step(2, [0, h1, 0], [0, a1, 0], 0, 0, 0, true);
+    } else {
+        add_step(2, [0, h1, 0], [0, a1, 0], 1, h1, a1, true);
+    }
+}
+
+#[kani::proof]
+#[kani::unwind(21)]
+fn c07_add_new_step_n2() {
+    // new pair: address 2 under hash 0 or 1
+    let (h1, a1) = second_pair();
+    add_step(2, [0, h1, 0], [0, a1, 0], 2, kani::any::<u8>() % 2, 2, true);
+}
+
+#[kani::proof]
+#[kani::unwind(21)]
+fn c07_find_step_n1() {
+    find_step(1, [0, 0, 0], [0, 0, 0], false);
+}
+
+#[kani::proof]
+#[kani::unwind(21)]
+fn c07_renew_step_n1() {
+    add_step(1, [0, 0, 0], [0, 0, 0], 0, 0, 0, false);
+}
+
+/// three pairs under one info-hash; the oldest, the middle or the newest is re-announced
+#[kani::proof]
+#[kani::unwind(21)]
+fn c07_renew_step_n3() {
+    let x: u8 = kani::any::<u8>() % 3;
+    add_step(3, [0, 0, 0], [0, 1, 2], x as usize, 0, x, false);
+}
+
+#[kani::proof]
+#[kani::unwind(21)]
+fn c07_find_step_n3() {
+    let (h1, a1) = second_pair();
+    find_step(3, [0, h1, 0], [0, a1, 2], true);
+}
+
+/// 24-hour boundary at 1 ns resolution: a pair is live strictly less than 24 h after its announce.
+#[kani::proof]
+#[kani::unwind(21)]
+fn c07_expiry_boundary() {
+    clock::start_symbolic();
+    let e = ItemExpiration::new(hash_of(0), concrete_addr_v4(0));
+    let t0 = clock::now();
+    clock::wait_symbolic(MAX_GAP_SECS);
+    let age = clock::now() - t0;
+    assert!(e.is_expired(crate::time::Instant::now()) == (age >= DAY), "C07: a pair does not expire exactly 24 hours after its announce");
+    kani::cover!(age == DAY, "exactly 24 h");
+    kani::cover!(age + Duration::from_nanos(1) == DAY, "1 ns before 24 h");
+    // pair identity = (address, info-hash); the announce time is not part of it
+    let e2 = ItemExpiration::new(hash_of(0), concrete_addr_v4(0));
+    let e3 = ItemExpiration::new(hash_of(1), concrete_addr_v4(0));
+    let e4 = ItemExpiration::new(hash_of(0), concrete_addr_v4(1));
+    assert!(e == e2 && e != e3 && e != e4, "C07: pair identity is not (address, info-hash)");
+}
+
+// ---------------------------------------------------------------------------------------------
+// Kernel level (no expiry pass in the path): `insert_contact`, the function that decides whether an
+// announce is a renewal, a new pair, or refused for lack of room.
+// ---------------------------------------------------------------------------------------------
+
+/// One stored pair (hash 0, address 0); announce the same pair, the same address under another
+/// info-hash, or another address under the same info-hash.
+#[kani::proof]
+#[kani::unwind(21)]
+fn c07_insert_contact_step() {
+    clock::start_symbolic();
+    let mut store = AnnounceStorage::new();
+    let it0 = AnnounceItem::new(hash_of(0), concrete_addr_v4(0));
+    let mut q = Vec::with_capacity(2);
+    q.push(it0.expiration());
+    store.expires = q;
+    let mut l = Vec::with_capacity(4);
+    l.push(it0);
+    store.storage.insert(hash_of(0), l);
+    clock::wait_symbolic(MAX_GAP_SECS);
+    let which: u8 = kani::any::<u8>() % 3;
+    let (h, a) = match which {
+        0 => (hash_of(0), concrete_addr_v4(0)),
+        1 => (hash_of(1), concrete_addr_v4(0)),
+        _ => (hash_of(0), concrete_addr_v4(1)),
+    };
+    let r = store.insert_contact(AnnounceItem::new(h, a));
+    assert!(r == Some(which == 0), "C07: a repeated pair is not recognised as a renewal, or a new pair is taken for one");
+    assert!(list_count(&store, concrete_addr_v4(0), hash_of(0)) == 1, "C07: re-announcing duplicates a pair in its contact list (or an announce removes another pair)");
+    assert!(list_count(&store, a, h) == 1, "C07: an accepted pair is not listed exactly once under its info-hash");
+    assert!(list_count(&store, concrete_addr_v4(1), hash_of(1)) == 0 && list_count(&store, concrete_addr_v4(0), hash_of(1)) == if which == 1 { 1 } else { 0 },
+            "C07: a pair appears under an info-hash it was not announced for");
+    kani::cover!(which == 1, "same address under another info-hash");
+    std::mem::forget(store);
+}
+
+/// Capacity gate: with 499 / 500 pairs in the expiry queue (symbolic choice) a new pair is accepted /
+/// refused, a stored pair is always accepted as a renewal, and a refusal changes nothing.
+#[kani::proof]
+#[kani::unwind(21)]
+fn c07_capacity_gate() {
+    clock::start_fixed();
+    let mut store = AnnounceStorage::new();
+    let it0 = AnnounceItem::new(hash_of(0), concrete_addr_v4(0));
+    let full: bool = kani::any();
+    // only the queue's length reaches the gate: the entries behind the first stay unwritten (filling
+    // 500 entries of a byte-typed heap object costs > 20 min of symbolic execution, F28) and are
+    // never read by insert_contact; the store is forgotten, not dropped, at the end
+    let mut q: Vec<ItemExpiration> = Vec::with_capacity(MAX_ITEMS_STORED);
+    q.push(it0.expiration());
+    unsafe { q.set_len(if full { MAX_ITEMS_STORED } else { MAX_ITEMS_STORED - 1 }) };
+    store.expires = q;
+    let mut l = Vec::with_capacity(4);
+    l.push(it0);
+    store.storage.insert(hash_of(0), l);
+    let renew: bool = kani::any();
+    let (h, a) = if renew { (hash_of(0), concrete_addr_v4(0)) } else { (hash_of(kani::any::<u8>() % 2), concrete_addr_v4(1)) };
+    let r = store.insert_contact(AnnounceItem::new(h, a));
+    if renew {
+        assert!(r == Some(true), "C07: re-announcing a stored pair is refused when the store is full");
+    } else if full {
+        assert!(r.is_none(), "C07: a new pair is accepted beyond the 500-pair limit");
+        assert!(list_count(&store, a, h) == 0, "C07: a refused pair is stored all the same");
+    } else {
+        assert!(r == Some(false), "C07: a new pair is refused although the store holds fewer than 500 pairs");
+        assert!(list_count(&store, a, h) == 1, "C07: an accepted pair is not stored");
+    }
+    assert!(list_count(&store, concrete_addr_v4(0), hash_of(0)) == 1, "C07: an announce at the capacity limit altered a stored pair");
+    assert!(store.expires.len() == if full { MAX_ITEMS_STORED } else { MAX_ITEMS_STORED - 1 }, "C07: the capacity test itself changes the expiry queue");
+    kani::cover!(full && !renew, "refusal at the limit");
+    kani::cover!(!full && !renew, "last free place taken");
+    std::mem::forget(store);
+}
+
+// ---------------------------------------------------------------------------------------------
+// Structure of renewal / expiry with the instants ENUMERATED (three concrete schedules, see
+// TIME_MODE) and the configuration symbolic: which pair is re-announced, whether the second pair
+// shares the first one's info-hash or address, whether a pair had been renewed before. The time
+// dimension itself is decided by `c07_expiry_boundary`; through the expiry pass it is not tractable
+// (F27), so these harnesses state their schedules as enumeration.
+// ---------------------------------------------------------------------------------------------
+
+fn renew_any_of_three(mode: u8) {
+    unsafe { TIME_MODE = mode };
+    let (h1, a1) = second_pair();
+    let x: u8 = kani::any::<u8>() % 4;
+    let hs = [0, h1, 0];
+    let ads = [0, a1, 2];
+    if x < 3 {
+        add_step(3, hs, ads, x as usize, hs[x as usize], ads[x as usize], true);
+    } else {
+        // a fourth, new pair: address 3 under either info-hash
+        add_step(3, hs, ads, 3, kani::any::<u8>() % 2, 3, true);
+    }
+}
+
+#[kani::proof]
+#[kani::unwind(21)]
+fn c07_announce_n3_nothing_expired() {
+    renew_any_of_three(1);
+}
+
+#[kani::proof]
+#[kani::unwind(21)]
+fn c07_announce_n3_oldest_expired() {
+    renew_any_of_three(2);
+}
+
+#[kani::proof]
+#[kani::unwind(21)]
+fn c07_announce_n3_all_expired() {
+    renew_any_of_three(3);
+}
+
+fn find_of_three(mode: u8) {
+    unsafe { TIME_MODE = mode };
+    let (h1, a1) = second_pair();
+    find_step(3, [0, h1, 0], [0, a1, 2], true);
+}
+
+#[kani::proof]
+#[kani::unwind(21)]
+fn c07_find_n3_nothing_expired() {
+    find_of_three(1);
+}
+
+#[kani::proof]
+#[kani::unwind(21)]
+fn c07_find_n3_oldest_expired() {
+    find_of_three(2);
+}
+
+#[kani::proof]
+#[kani::unwind(21)]
+fn c07_find_n3_all_expired() {
+    find_of_three(3);
+}
+
+// two-pair instances of the enumerated-schedule harnesses (cheaper; quick tier)
+fn announce_any_of_two(mode: u8) {
+    unsafe { TIME_MODE = mode };
+    let (h1, a1) = second_pair();
+    let x: u8 = kani::any::<u8>() % 3;
+    let hs = [0, h1, 0];
+    let ads = [0, a1, 0];
+    if x < 2 {
+        add_step(2, hs, ads, x as usize, hs[x as usize], ads[x as usize], true);
+    } else {
+        add_step(2, hs, ads, 2, kani::any::<u8>() % 2, 2, true);
+    }
+}
+
+#[kani::proof]
+#[kani::unwind(21)]
+fn c07_announce_n2_nothing_expired() {
+    announce_any_of_two(1);
+}
+
+#[kani::proof]
+#[kani::unwind(21)]
+fn c07_announce_n2_oldest_expired() {
+    announce_any_of_two(2);
+}
+
+#[kani::proof]
+#[kani::unwind(21)]
+fn c07_find_n2_oldest_expired() {
+    unsafe { TIME_MODE = 2 };
+    let (h1, a1) = second_pair();
+    find_step(2, [0, h1, 0], [0, a1, 0], true);
+}
